@@ -70,7 +70,6 @@ Definition run_case (c : case) : bool :=
 
 EQUI_SYM = ["l.a = r.a", "l.b = r.b", "l.c = r.c", "substr(l.a,1,1) = substr(r.a,1,1)"]
 EQUI_ASYM = ["l.a = r.b", "l.b = r.c"]
-# symmetric in l/r (for jobs with several tables, see the known finding on random aliases)
 FILTERS = ["l.c <> r.c", "l.a is not null and r.a is not null", "(l.c = r.c or l.b = r.b)", "length(l.b) = length(r.b)",
            "coalesce(l.c, 'u') = coalesce(r.c, 'u')"]
 FILTERS_ASYM = ["l.a is not null", "l.c < r.c", "length(l.a) < length(r.a)"]
@@ -113,7 +112,10 @@ def gen_case(rng, backend):
     ntab = 1 if lt == "dedupe_only" else rng.choice([2, 2, 3])
     names = ["ta", "tb", "tc"][:ntab]
     tables = gen_tables(rng, ntab)
-    dedupe = lt == "dedupe_only"
+    # rules not symmetric in l/r are generated for every link type: since /repo 3fd959ab the tables registered
+    # without aliases get source dataset names that sort in input order, i.e. the orientation of the Linker
+    # (aliases ta < tb < tc) and of the model (ranks of name-__-uid)
+    dedupe = True
     rule = gen_rule(rng, dedupe)
     rules = [gen_rule(rng, dedupe) for _ in range(rng.choice([1, 2, 2, 3, 3, 4]))]
     if backend == "duckdb":
